@@ -345,7 +345,7 @@ class Extractor:
             from . import interp as I
             if I.root_is_promoted(x[1]):
                 v = I.promoted_read(x[1], v)
-            if x[1][0][0] == "L" or (isinstance(v, tuple) and v[0] in ("agg", "upd", "k", "vagg")):
+            if x[1][0][0] == "L" or (isinstance(v, tuple) and v[0] in ("agg", "upd", "k", "vagg", "model")):
                 return "&" + render_value(self.prog, v, names=self.names())
         return render_value(self.prog, x, names=self.names()) if isinstance(x, tuple) and x[0] in ("agg", "upd") else stable(x)
 
